@@ -20,8 +20,10 @@ TRUSTED = ['Coq 8.16.1 kernel + vm_compute (no native_compute)',
            'correspondence harness: float<->(mantissa,exponent) exchange, tolerance rule 16 ulp of max(|args|,|value|)',
            'theorems are over exact reals; binary64 rounding is covered only by the correspondence']
 ASSUMPTIONS = ['exact real arithmetic in theorems', 'jax.grad of the primitives used is the derivative',
+               'smooth_linear is C1 only for 0 < l <= 1/2 (not stated in the source; the library calls it with 1e-7 / 1e-9): for l = 1 it jumps at xi = 1 (C18_smooth_linear_needs_l_le_half_refuted); values for l > 1/2 are still tied to the implementation',
                'C1 clauses need width > safeTol (1e-14); below it the clamp makes the kernel discontinuous (documented domain)']
-RULE = ('inputs: seeded random arguments over ten decades of magnitude and width, plus streams placed exactly on, and one ulp '
+RULE = ('second-wave streams: widths at/below the 1e-14 clamp, zero and negative widths; single un-jitted calls vs the batched jit; float32 inputs (bounds at float32 accuracy, dtype preserved); midpoint convexity, gradient monotonicity and tangent lower bound of the friction potential on pairs of slips incl. exactly on the switch circle and at zero slip; d max/dy; EdgeCpp.smoothstep value/derivative on and around 0 and 1; smooth_linear for l > 1/2 (values). All model-vs-implementation comparisons are NaN-safe (a NaN derivative is a mismatch). '
+        'inputs: seeded random arguments over ten decades of magnitude and width, plus streams placed exactly on, and one ulp '
         'either side of, every branch switch (dyadic so both sides are exact); a case is non-trivial when it lies inside a '
         'smoothing band or within 2 ulp of a switch; distinct = distinct argument tuples')
 IMPORTS = ['From OV.gen Require Import Gen_SmoothFunctions Gen_Math Gen_Friction Gen_MortarContact Gen_Surface Gen_EdgeCpp.',
